@@ -14,6 +14,10 @@ a proposal whose *stored* status is `Rejected` (voted down before expiry, or cre
 never be closed.  It is proved here for proposals that expire while stored `Open`
 (`failed_deposit_recoverable_partial`), and the counterexample is machine-checked (`C15_counterexample`).
 
+Section (7) adds the accounting of the deposit *pool* across concurrent proposals at world level: `holdings`, `owed`,
+`deposits_taken_exact`, `pool_covers_owed_if_unspent` (guards `External`, `NoSpend`, `NoGrant`), the dedicated dispatch
+induction `pool_dispatch`, `refund_never_fails_for_lack_of_funds_guarded`, and the counterexample `pool_guard_necessary`.
+
 Model: `Model/Cw3Flex.lean`; a handler returns `List Out`: `Out.bank` / `Out.cw20Transfer` are the refund
 messages, `Out.cw20TransferFrom` takes a cw20 deposit, `Out.msg m` is a message of the proposal itself.
 -/
@@ -1820,5 +1824,60 @@ example :
       (dep := ⟨5, "tok", true, true⟩) (ops := Cex20.ops.take 2) (self := "ms") (t := Cex20.token0) rfl (by decide)
       (fun _ sp => rfl) (by decide) (noSpend_of_check (by decide)),
    by decide⟩
+
+/-! ### the two environment guards are used: what happens without them -/
+
+namespace CexGuards
+
+/-- a group in which the multisig's own address `ms` is a member -/
+def groupSelf : Cw4Group.State :=
+  match Cw4Group.instantiate ⟨some ⟨true, "adm"⟩, [(⟨true, "ms"⟩, 1), (⟨true, "b"⟩, 2), (⟨true, "c"⟩, 2)]⟩ 5 with
+  | .ok g => g
+  | .error _ => Cw4Group.State.empty
+
+def flexSelf : State := match instantiate Cex.inst (some groupSelf) with | .ok s => s | .error _ => default
+
+/-- the multisig holds 5ucosm of its own -/
+def worldSelf : World := World.init flexSelf groupSelf Cex.token0 [(("ms", "ucosm"), 5)] "ms" "grp" "tok" 5
+
+/-- two Propose transactions *signed by the multisig's own address*, each "paying" the deposit from `ms` to `ms` -/
+def opsSelf : List Op :=
+  [⟨⟨10, 0⟩, .flex "ms" [⟨5, "ucosm"⟩] (.propose "t" "d" [] none)⟩,
+   ⟨⟨10, 0⟩, .flex "ms" [⟨5, "ucosm"⟩] (.propose "t" "d" [] none)⟩]
+
+/-- a cw20 token in which `a` holds 20 and the multisig has granted `x` an allowance of 5 -/
+def tokenGrant : Cw20.State :=
+  { supply := 20, mint := none, balances := [("a", 20)], allow := [(("ms", "x"), ⟨5, .never⟩)],
+    allowSp := [(("x", "ms"), ⟨5, .never⟩)], version := ⟨"crates.io:cw20-base", 2, 0, 0⟩ }
+
+def worldGrant : World := World.init Cex20.flex0 Cex.group0 tokenGrant [] "ms" "grp" "tok" 5
+
+/-- `a` pays the cw20 deposit; then `x` uses the allowance the multisig had granted and pulls the 5 tokens out -/
+def opsGrant : List Op :=
+  [⟨⟨10, 0⟩, .token "a" (.increaseAllowance ⟨true, "ms"⟩ 5 none)⟩,
+   ⟨⟨10, 0⟩, .flex "a" [] (.propose "t" "d" [] none)⟩,
+   ⟨⟨11, 0⟩, .token "x" (.transferFrom ⟨true, "ms"⟩ ⟨true, "x"⟩ 5)⟩]
+
+end CexGuards
+
+/-- **The guard `External` is used** (machine-checked): if transactions could be signed by the multisig's own address,
+two Proposes "paying" the deposit from the multisig to itself leave 10ucosm owed against holdings of 5 — with no
+proposal executed at all (`NoSpend` holds). -/
+example : External "ms" CexGuards.opsSelf = False ∧
+    noSpendB CexPool.dep (run Cex.noExt 10 CexGuards.worldSelf CexGuards.opsSelf) = true ∧
+    owed (run Cex.noExt 10 CexGuards.worldSelf CexGuards.opsSelf) = 10 ∧
+    holdings CexPool.dep (run Cex.noExt 10 CexGuards.worldSelf CexGuards.opsSelf) = 5 := by
+  refine ⟨by simp [External, CexGuards.opsSelf, Action.sender], by decide, by decide, by decide⟩
+
+/-- **The guard "the multisig has granted no allowance" is used** (cw20 deposit, machine-checked): with an allowance
+granted by the multisig in the initial token state, an outsider pulls the deposit out by `TransferFrom`; every sender is
+external and nothing was executed, yet 5 tokens are owed against holdings of 0. -/
+example : External "ms" CexGuards.opsGrant ∧ ¬ NoGrant CexGuards.tokenGrant "ms" ∧
+    noSpendB ⟨5, "tok", true, true⟩ (run Cex.noExt 10 CexGuards.worldGrant CexGuards.opsGrant) = true ∧
+    owed (run Cex.noExt 10 CexGuards.worldGrant CexGuards.opsGrant) = 5 ∧
+    holdings ⟨5, "tok", true, true⟩ (run Cex.noExt 10 CexGuards.worldGrant CexGuards.opsGrant) = 0 := by
+  refine ⟨by decide, fun h => ?_, by decide, by decide, by decide⟩
+  have := h "x"
+  simp [CexGuards.tokenGrant, AMap.get?] at this
 
 end CwPlus.Props.C15
